@@ -386,6 +386,7 @@ func (s *Sub[C]) replay(t *testing.T) bool {
 	if err := json.Unmarshal(r.replayCase, &c); err != nil {
 		t.Fatalf("replay: cannot decode case: %v", err)
 	}
+	s.witnesses(t) // so that a replayed case of an active known-finding class is reported as such
 	if v := s.eval(c); v != "" {
 		s.saveViolation()
 		t.Errorf("replayed case still violates %s/%s: %s", r.Prop, s.st.Name, v)
